@@ -61,7 +61,7 @@ package net
 //@   tags C01 C10
 //@   requires w != nil
 //@   requires len(m.Payload) <= 4294967267
-//@   modifies w.len, w.writes, w.data
+//@   modifies w.len, w.writes, w.data, w.wfailed
 //@   ensures w.len >= old(w.len)
 //@   ensures forall j int {w.data[j]} :: j < old(w.len) ==> w.data[j] == old(w.data[j])
 //@   ensures len(m.Payload) != m.Header.Size ==> err != nil && w.len == old(w.len) && w.writes == old(w.writes)
